@@ -205,6 +205,12 @@ type Cont struct {
 	VID atree.ValueID
 	SID atree.SlabID // slab ID at creation (== root ID for a never-nested container)
 
+	// Stale handle: the handle the harness held when the container was detached from FormerParent
+	// (C11: handles taken before detachment and used after).
+	StaleArr     *atree.Array
+	StaleMap     *atree.OrderedMap
+	FormerParent *Cont
+
 	Parent *Cont // nil: root or detached
 	Dead   bool  // destroyed (popped out of its parent / disposed)
 	Wrap   int   // number of Some wrappers around it inside its parent
